@@ -250,6 +250,8 @@ pub fn sortable_case(cx: &mut Ctx, strings: &[String], probes: &[String]) {
     let cell = "SortableStrVec";
     cx.sum.eval(cell, &format!("ssv {:?} {:?}", strings, probes), strings.len() >= 2);
     let cj = json!({"cell": "sortable", "strings": strings, "probes": probes});
+    x::search_emit(cx, cj.clone(), strings, probes);
+    x::push_emit(cx, cj.clone(), strings);
     let r = guarded(|| {
         let mut bad: Vec<String> = vec![];
         let n = strings.len();
@@ -362,6 +364,7 @@ pub fn zo_case(cx: &mut Ctx, strings: &[String], probes: &[String]) {
     let cell = "ZoSortedStrVec";
     cx.sum.eval(cell, &format!("zo {:?} {:?}", strings, probes), strings.len() >= 2);
     let cj = json!({"cell": "zo", "strings": strings, "probes": probes});
+    x::zo_emit(cx, cj.clone(), strings, probes);
     let r = guarded(|| {
         let mut bad: Vec<String> = vec![];
         let mut sorted: Vec<String> = strings.to_vec();
